@@ -71,6 +71,17 @@ let () =
   reg "jacobi_dia" (fun t -> let a = t_crs t in show_vec (Relax.jacobi_setup sc a []));
   reg "gersh" (fun t -> let scale = (t_i t <> 0) in let a = t_crs t in show_s (Cheby.gershgorin sc scale a));
 
+  (* SPAI-1 relative to the exact least-squares solve (normal equations, DenseSolve.dense_solve);
+     compared with the double build of spai1.hpp up to a tolerance (tools/props/C06.py) *)
+  let spai1_m a = match Spai1.spai1_setup sc (DenseSolve.dense_solve sc) a with
+    | Some m -> m | None -> raise (Model_exc "singular") in
+  reg "spai1_m" (fun t -> let a = t_crs t in show_crs (spai1_m a));
+  reg "spai1" (fun t -> let mode = t_s t in
+    let a = t_crs t in let rhs = t_vec t in let x = t_vec t in
+    let m = spai1_m a in
+    let sw a rhs x = fst (Spai1.spai1_sweep sc m a rhs x (zeros (nrows a))) in
+    show_vec (run_mode mode ~pre:sw ~post:sw ~apply:(fun _ rhs x -> Spai1.spai1_apply sc m rhs x) a rhs x));
+
   (* ---------------- specification oracles (evaluated on implementation outputs) *)
   (* o_lu_pattern <A> <L> <U> <D> <P>: ((I+L)(U+D^-1))_ij = a_ij for every (i,j) in the pattern P *)
   reg "o_lu_pattern" (fun t -> let a = t_crs t in let l = t_crs t in let u = t_crs t in let d = t_vec t in
